@@ -210,6 +210,7 @@ func (goh *GoatOverHttp) retrieve(id string) (*httpReadWriter, bool) {
 			cancel:    func() { goh.unregister(id) },
 			clock:     goh.clock,
 		}
+		conn.bumpActivity()
 
 		goh.conns.value[id] = conn
 	}
